@@ -174,6 +174,9 @@ def families():
                                   (1, 2): (lambda x: typelib.unmarshal(eval("dict[str, float]"), x), lambda: {"a": "1"}),
                                   (2, 1): (lambda x: typelib.marshal(x, t=eval("tuple[int, str]")), lambda: (1, "one")),
                                   (2, 2): (lambda x: typelib.marshal(x, t=eval("dict[str, int]")), lambda: {"a": 1, "b": 2})},
+        # numbers read as seconds since the epoch, near a UTC midnight
+        "epoch_numbers": {(1, 1): um(datetime.date, lambda: 64800), (1, 2): um(datetime.date, lambda: 86399.5),
+                          (2, 1): um(datetime.date, lambda: "64800"), (2, 2): um(datetime.datetime, lambda: 1709249400)},
         # a rejection must stay a rejection: the same invalid input again, after valid ones, nested
         "typeddict_missing_key": {(1, 1): um(I.TD, lambda: {"y": "s"}), (1, 2): um(I.TD, lambda: {"x": "1", "y": "s"}),
                                   (2, 1): um(list[I.TD], lambda: [{"y": "t"}]), (2, 2): um(dict[str, I.TD], lambda: {"k": {"x": "2"}})},
@@ -340,7 +343,9 @@ class ExecZygote:
     def __init__(self, hashseed: int):
         import subprocess
         verif = os.path.dirname(os.path.dirname(os.path.abspath(__file__)))
-        env = dict(os.environ, PYTHONHASHSEED=str(hashseed), PYTHONDONTWRITEBYTECODE="1")
+        # (and another process time zone, as POSIX TZ strings that need no zone database: nothing may follow local time either)
+        env = dict(os.environ, PYTHONHASHSEED=str(hashseed), PYTHONDONTWRITEBYTECODE="1",
+                   TZ={1: "XXX-14", 2: "EST+5", 3: "XXX+11:30"}.get(hashseed, "UTC"))
         code = f"import sys; sys.path.insert(0, {verif!r}); from harness import zygote; zygote.serve(0, 1)"
         self.p = subprocess.Popen([sys.executable, "-B", "-c", code], stdin=subprocess.PIPE, stdout=subprocess.PIPE,
                                   stderr=subprocess.DEVNULL, env=env, text=True)
@@ -364,4 +369,4 @@ class ExecZygote:
 FAMILY_NAMES = ["union_unmarshal", "union_marshal", "union_in_list", "instants", "instants_in_list", "text_carriers",
                 "bare_containers", "numbers", "same_name_classes", "string_refs", "recursive", "codec_configs", "dateparse",
                 "build_order", "build_order_nt", "same_routine_inputs", "same_routine_inputs2", "private_fields", "nested_text",
-                "nested_text2", "duration_classes", "temporal_text_targets", "equal_keys", "same_origin_kinds", "same_origin_kinds2", "value_classes", "retry_same_object", "subclass_after_base", "frozen_instance_input", "typeddict_missing_key", "typeddict_key_order", "inserting_mapping_input", "throwaway_annotations"]
+                "nested_text2", "duration_classes", "temporal_text_targets", "equal_keys", "same_origin_kinds", "same_origin_kinds2", "value_classes", "retry_same_object", "subclass_after_base", "frozen_instance_input", "typeddict_missing_key", "typeddict_key_order", "inserting_mapping_input", "throwaway_annotations", "epoch_numbers"]
